@@ -18,6 +18,7 @@ def run(ctx):
     specs = codec.std_specs(ctx)
     for sp in specs:
         sp["frac"] = 1.0  # every target sees every type: the property is about all pairs
+    codec.mark_services(types)
     camp = codec.Campaign(ctx, types, specs, with_py=True, batch=ctx.pick(40, 60))
     camp.build()
     codec.report_gen_failures(camp, ctx, PROP)
